@@ -48,42 +48,6 @@ pub fn digests(r: &Reference) -> [u64; 5] {
     [digest(&r.prover), digest(&r.verifier), digest(&r.compressed), digest(&r.proof), digest(&r.pi)]
 }
 
-fn noise(ctx: &mut RunCtx, sc: &Scenario, h: &mut crate::prng::Rng) {
-    // history: an unrelated tiny deployment whose label is related to ours
-    let mut label = sc.label.clone();
-    match h.below(7) {
-        // same length, another tail / middle byte: a history entry that a cache keyed by a
-        // digest, prefix or length of the label would confuse with ours
-        4 => {
-            if let Some(b) = label.last_mut() {
-                *b ^= 0x55;
-            }
-        }
-        5 | 6 => {
-            if !label.is_empty() {
-                let i = h.usize(label.len());
-                label[i] ^= 1 << h.below(8);
-            }
-        }
-        0 => label.push(h.below(256) as u8),
-        1 => {
-            label.pop();
-        }
-        2 => label.clear(),
-        _ => {
-            if let Some(b) = label.first_mut() {
-                *b ^= 1;
-            }
-        }
-    }
-    let prog = Arc::new(Program { ops: vec![Op::Filler(1 + h.usize(3))] });
-    let env = ctx.env(h);
-    let pp = deploy::pp_with_degree(16);
-    let _ = deploy::compile(&pp, &label, &prog, Route::WithCircuit, &env);
-    ctx.st.probe("history_noise_deployments");
-    ctx.st.steps += 1;
-}
-
 pub fn class_for(ctx: &RunCtx, w: &mut crate::prng::Rng) -> SizeClass {
     if let Some(c) = ctx.spec.get("class") {
         return match c {
@@ -121,6 +85,15 @@ pub fn run(ctx: &mut RunCtx) -> Result<(), Violation> {
         ctx.st.probe("sibling_label_served_before_the_specification");
         ctx.st.fault("history.sibling_label_first");
         ctx.st.steps += 1;
+    }
+    // ... or a deployment that collides with ours on label, size or constraint count (another
+    // circuit), the same circuit under a sibling label, FFTs on the same domain sizes
+    let cheap_only = !matches!(class, SizeClass::Tiny | SizeClass::Small);
+    if h.chance(1, 2) {
+        for _ in 0..1 + h.usize(2) {
+            crate::history::noise(ctx, &sc, &mut h, cheap_only);
+        }
+        ctx.st.probe("history_before_the_specification");
     }
     let rf = match reference(&sc) {
         Ok(r) => r,
@@ -177,7 +150,7 @@ pub fn run(ctx: &mut RunCtx) -> Result<(), Violation> {
     let pp = deploy::pp_with_degree(sc.degree);
     for j in 0..n_cfg {
         if h.chance(1, 2) {
-            noise(ctx, &sc, &mut h);
+            crate::history::noise(ctx, &sc, &mut h, cheap_only);
         }
         // --- compile under a perturbed environment, by a seeded route
         let env_c = ctx.env(&mut s);
@@ -211,7 +184,7 @@ pub fn run(ctx: &mut RunCtx) -> Result<(), Violation> {
         }
         ctx.st.steps += 1;
         if h.chance(1, 3) {
-            noise(ctx, &sc, &mut h);
+            crate::history::noise(ctx, &sc, &mut h, cheap_only);
         }
         // --- prove with the same RNG script, repeated runs, keys possibly reloaded
         let env_p = ctx.env(&mut s);
@@ -236,6 +209,9 @@ pub fn run(ctx: &mut RunCtx) -> Result<(), Violation> {
         }
         if pi_bytes(&pi) != rf.pi {
             return Err(fail("public inputs", &env_p, String::new()));
+        }
+        if h.chance(1, 3) {
+            crate::history::noise(ctx, &sc, &mut h, cheap_only);
         }
         let env_v = ctx.env(&mut s);
         if let Err(e) = deploy::verify(&verifier, &proof, &pi, sc.version, &env_v) {
